@@ -110,7 +110,9 @@ func (v *PacketDslFormattor) VisitPacket(ctx *gen.PacketContext) interface{} {
 			}
 		}
 	}
-	formattedDsl.WriteString(v.getHiddenRightAtSameLine(ctx.GetStop()))
+	if ctx.GetStop() != nil { // nil when the text holds no declaration at all (empty / comment-only input)
+		formattedDsl.WriteString(v.getHiddenRightAtSameLine(ctx.GetStop()))
+	}
 	return formattedDsl.String()
 }
 
